@@ -61,7 +61,7 @@ from __future__ import annotations
 
 import io
 
-from .. import defs, impl, s6_c14, t4_c14, u3_c14, v4_c14, v5_c14
+from .. import defs, impl, s6_c14, t4_c14, u3_c14, v4_c14, v5_c14, v6_c14
 from ..common import Case, Result, mkrng
 from ..structprops import rand_bytes
 
@@ -243,6 +243,8 @@ def run(env) -> Result:
     v4_c14.run(env, res, viol, mkrng(env["seed"], "c14:v4"), 100 if tier == "quick" else 1500)
     # bound dumps / write / read / reads callables kept across operations on other instances, types and cstruct objects
     v5_c14.run(env, res, viol, mkrng(env["seed"], "c14:v5"), 60 if tier == "quick" else 1500)
+    # parses that fail inside the evaluation of an array-length expression, then good parses with the same types (harness/v6_c14.py)
+    v6_c14.run(env, res, lambda w, d: viol(w, d), mkrng(env["seed"], "c14:v6"), impl.dc())
     res.sample({"history_example": "construct@cs0, inplace-array@cs0/inst0, construct@cs0, endian@cs1, parse@cs1, ..."})
     return res
 
